@@ -7,6 +7,7 @@ import (
 	"os"
 	"strconv"
 
+	"github.com/launchdarkly/go-jsonstream/v3/jreader"
 	"github.com/launchdarkly/go-server-sdk-evaluation/v3/ldmodel"
 )
 
@@ -15,7 +16,7 @@ import (
 // overflow", which no recover() can intercept) kills the process. One line of output when the decoder returns.
 func cmdDeepNest(args []string) {
 	if len(args) < 3 {
-		fmt.Println("usage: harness deepnest <flag|segment> <variations|clausevalues|unknown|unknownobj> <depth>")
+		fmt.Println("usage: harness deepnest <flag|segment|stdflag|readerflag|readersegment> <variations|clausevalues|unknown|unknownobj> <depth>")
 		os.Exit(2)
 	}
 	kind, shape := args[0], args[1]
@@ -66,6 +67,14 @@ func cmdDeepNest(args []string) {
 	case "stdflag": // encoding/json hook: the standard library validates (and bounds the depth of) the text first
 		var f ldmodel.FeatureFlag
 		err = json.Unmarshal(b.Bytes(), &f)
+	case "readerflag": // the streaming entry point: the caller's jreader.Reader over the same bytes
+		r := jreader.NewReader(b.Bytes())
+		_ = ldmodel.UnmarshalFeatureFlagFromJSONReader(&r)
+		err = r.Error()
+	case "readersegment":
+		r := jreader.NewReader(b.Bytes())
+		_ = ldmodel.UnmarshalSegmentFromJSONReader(&r)
+		err = r.Error()
 	}
 	fmt.Printf("deepnest kind=%s shape=%s depth=%d bytes=%d returned err=%v\n", kind, shape, depth, b.Len(), err != nil)
 }
